@@ -154,9 +154,88 @@ def check(name, all_props=False):
     return 0
 
 
+REFACTORS = os.path.join(VERIF, "refactors")
+
+
+def ingest_refactor(wt, pid, name):
+    """a behaviour-preserving refactoring written by an independent sub-agent: store it, confirm that the suite passes with it"""
+    d = os.path.join(REFACTORS, name)
+    os.makedirs(d, exist_ok=True)
+    rc, diff = sh(["git", "-C", wt, "diff", "--", "src"])
+    if not diff.strip():
+        print("no source change in", wt)
+        return 1
+    with open(os.path.join(d, "patch.diff"), "w") as f:
+        f.write(diff)
+    if os.path.exists(os.path.join(wt, "REFACTOR.md")):
+        shutil.copy(os.path.join(wt, "REFACTOR.md"), os.path.join(d, "REFACTOR.md"))
+    if not os.path.exists(VERIFY_WT):
+        sh(["git", "-C", REPO, "worktree", "add", "-q", "--detach", VERIFY_WT, "HEAD"])
+    sh("git checkout -q --detach $(git -C /repo rev-parse HEAD) && git checkout -- . && git clean -fdq -e target", cwd=VERIFY_WT)
+    rc, out = sh(["git", "apply", os.path.join(d, "patch.diff")], cwd=VERIFY_WT)
+    if rc:
+        print("patch does not apply:", out)
+        return 1
+    rc2, out2 = sh("cargo test --offline --workspace --no-fail-fast", cwd=VERIFY_WT, env={"CARGO_TARGET_DIR": TARGET})
+    sh("git checkout -- . && git clean -fdq -e target", cwd=VERIFY_WT)
+    summ = test_summary(out2)
+    ok = rc2 == 0 and any(x[1] == 84 for x in summ)
+    meta = {"property": pid, "name": name, "kind": "behaviour-preserving refactoring (independent sub-agent)", "base_commit": sh(["git", "-C", REPO, "rev-parse", "HEAD"])[1].strip(),
+            "suite_with_change": {"rc": rc2, "summary": summ}, "confirmed": ok, "lines_changed": len([l for l in diff.splitlines() if l[:1] in "+-" and l[:3] not in ("+++", "---")]),
+            "ran": ["git apply patch.diff", "cargo test --offline --workspace --no-fail-fast"]}
+    with open(os.path.join(d, "meta.json"), "w") as f:
+        json.dump(meta, f, indent=1)
+    print(json.dumps({k: meta[k] for k in ("confirmed", "suite_with_change", "lines_changed")}))
+    return 0 if ok else 2
+
+
+def check_refactor(name):
+    d = os.path.join(REFACTORS, name)
+    with open(os.path.join(d, "meta.json")) as f:
+        meta = json.load(f)
+    rc, out = sh(["git", "-C", REPO, "status", "--porcelain", "--untracked-files=no"])
+    if out.strip():
+        print("refusing: /repo has local modifications:\n" + out)
+        return 1
+    rc, out = sh(["git", "-C", REPO, "apply", os.path.join(d, "patch.diff")])
+    if rc:
+        print("patch does not apply to /repo:", out)
+        return 1
+    results = {}
+    try:
+        for pid in ALL:
+            rc, out = sh([os.path.join(VERIF, "bin", "check"), pid, "--tier", "quick", "--no-evidence"], cwd=VERIF)
+            lines = out.splitlines()
+            viol = [l for l in lines if l.startswith(pid + " ") and "VIOLATION" not in l and "obligations=" not in l]
+            summ = [l for l in lines if "obligations=" in l]
+            und = re.search(r"undecided=(\d+)", summ[-1]) if summ else None
+            results[pid] = {"rc": rc, "reports": viol[:6], "undecided": int(und.group(1)) if und else None}
+    finally:
+        sh(["git", "-C", REPO, "checkout", "--", "."])
+    rc, out = sh(["git", "-C", REPO, "status", "--porcelain", "--untracked-files=no"])
+    assert not out.strip(), "repo not restored!"
+    meta["checks"] = results
+    meta["alarms"] = sorted(p for p, r in results.items() if r["rc"] != 0)
+    meta["undecided"] = {p: r["undecided"] for p, r in results.items() if r["undecided"]}
+    meta["checked_at"] = time.strftime("%Y-%m-%dT%H:%M:%SZ", time.gmtime())
+    with open(os.path.join(d, "meta.json"), "w") as f:
+        json.dump(meta, f, indent=1)
+    for p, r in results.items():
+        if r["rc"] != 0:
+            print(p, "rc=%d" % r["rc"])
+            for l in r["reports"]:
+                print("    ", l[:300])
+    print("alarms:", meta["alarms"], "undecided:", meta["undecided"])
+    return 0
+
+
 if __name__ == "__main__":
     if sys.argv[1] == "ingest":
         sys.exit(ingest(sys.argv[2], sys.argv[3], sys.argv[4]))
+    elif sys.argv[1] == "ingest-refactor":
+        sys.exit(ingest_refactor(sys.argv[2], sys.argv[3], sys.argv[4]))
+    elif sys.argv[1] == "check-refactor":
+        sys.exit(check_refactor(sys.argv[2]))
     elif sys.argv[1] == "backfill":
         backfill()
     elif sys.argv[1] == "check":
